@@ -15,6 +15,7 @@ from pexpect.exceptions import EOF, TIMEOUT
 import pexpect.replwrap as RW
 
 ENCODES = ['pexpect.replwrap.REPLWrapper.__init__', 'pexpect.replwrap.REPLWrapper.run_command',
+           'pexpect._async_w_await.repl_run_command_async', 'pexpect._async_w_await.expect_async',
            'pexpect.replwrap.REPLWrapper._expect_prompt',
            'pexpect.spawnbase.SpawnBase.expect_exact', 'pexpect.expect.searcher_string.search']
 STUBS = ['the REPL: a scripted transport that answers each sendline with output + prompt in two reads; kill() recorded',
@@ -59,15 +60,15 @@ def _clean(x):
     return x.find(P1) < 0 and x.find(P2) < 0 and (x + P1[0]).find(P1) < 0 and (x + P2[0]).find(P2) < 0
 
 
-@obligation(params=dict(o1=Text(2), o2=Text(2), o3=Text(2), c1=Int(0, 4), c2=Int(0, 4), c3=Int(0, 4), shape=Int(0, 2)),
+@obligation(params=dict(o1=Text(2), o2=Text(2), o3=Text(2), c1=Int(0, 4), c2=Int(0, 4), c3=Int(0, 4), shape=Int(0, 3)),
             tags={2: 'two single-line commands', 3: 'a two-line command then a single-line one',
-                  4: 'incomplete input: ValueError, then a normal command'},
+                  4: 'incomplete input: ValueError, then a normal command', 5: 'three lines, the middle one empty'},
             timeout=900, split=('shape', 'c1'),
             thorough=dict(params=dict(o1=Text(3), o2=Text(3), o3=Text(3), c1=Int(0, 5), c2=Int(0, 5), c3=Int(0, 5)),
                           timeout=3000, split=('shape', 'c1', 'c2')),
             note='shape 0: cmd; cmd   1: two-line cmd; cmd   2: incomplete cmd (continuation prompt) ; cmd')
 def Q1_commands(o1, o2, o3, c1, c2, c3, shape):
-    shape = pick(shape, 0, 2)
+    shape = pick(shape, 0, 3)
     for o in (o1, o2, o3):
         if not _clean(o):
             return SKIP
@@ -75,6 +76,8 @@ def Q1_commands(o1, o2, o3, c1, c2, c3, shape):
         answers = [(o1, 0), (o2, 0)]
     elif shape == 1:
         answers = [(o1, 1), (o2, 0), (o3, 0)]
+    elif shape == 3:
+        answers = [(o1, 1), (o2, 1), (o3, 0)]          # 'a', '', 'b': the empty line is input like any other
     else:
         answers = [(o1, 1), (o3, 0)]
     child = Repl(answers, [c1, c2, c3])
@@ -92,6 +95,10 @@ def Q1_commands(o1, o2, o3, c1, c2, c3, shape):
                 r2 = rw.run_command('c')
                 ok = (r1 == o1 + o2) and (r2 == o3) and child.lines == ['a', 'b', 'c']
                 tag = 3
+            elif shape == 3:
+                r1 = rw.run_command('a\n\nb')
+                ok = (r1 == o1 + o2 + o3) and child.lines == ['a', '', 'b']
+                tag = 5
             else:
                 try:
                     rw.run_command('if x:')
@@ -112,9 +119,94 @@ def Q1_commands(o1, o2, o3, c1, c2, c3, shape):
     return tag
 
 
+class _Pass:
+    @staticmethod
+    def decode(b, final=False):
+        return b
+
+
+def _drive(coro, child, loop):
+    """play the event loop for one awaited run_command: whenever the coroutine waits for a prompt, hand the
+    REPL's queued output to the protocol piece by piece until its future resolves"""
+    cmd = None
+    for _ in range(40):
+        try:
+            w = coro.send(cmd)
+        except StopIteration as si:
+            return si.value
+        pw = child.async_pw_transport[0]
+        while not pw.fut.done():
+            if not child.script:
+                raise Skip()                 # the REPL has nothing more to say: would wait for the timeout
+            ev = child.script.pop(0)
+            pw.data_received(ev[1])
+        cmd = 'go'
+    raise AssertionError('run_command did not finish')
+
+
+@obligation(params=dict(o1=Text(2), o2=Text(2), o3=Text(2), c1=Int(0, 4), c2=Int(0, 4), c3=Int(0, 4), shape=Int(0, 2)),
+            tags={2: 'two single-line commands', 3: 'a two-line command then a single-line one',
+                  4: 'incomplete input: ValueError, then a normal command'},
+            timeout=900, split=('shape', 'c1'),
+            note='the awaited form run_command(..., async_=True) over a hand-driven event loop returns the same values '
+                 '(same scripted REPL, output handed to the asyncio protocol piece by piece)')
+def Q2_commands_async(o1, o2, o3, c1, c2, c3, shape):
+    import pexpect._async_w_await as AW
+    from harness.C14 import FakeAsyncio, Loop
+    shape = pick(shape, 0, 2)
+    for o in (o1, o2, o3):
+        if not _clean(o):
+            return SKIP
+    if shape == 0:
+        answers = [(o1, 0), (o2, 0)]
+    elif shape == 1:
+        answers = [(o1, 1), (o2, 0), (o3, 0)]
+    else:
+        answers = [(o1, 1), (o3, 0)]
+    child = Repl(answers, [c1, c2, c3])
+    child._decoder = _Pass()
+    child.script.append(('data', lit(P1)))
+    loop = Loop()
+    with frozen_time(), patched(AW, asyncio=FakeAsyncio, _loop_getter=(lambda: loop)):
+        try:
+            rw = RW.REPLWrapper(child, P1, None, continuation_prompt=P2)       # start-up synchronisation: blocking
+            if shape == 0:
+                r1 = _drive(rw.run_command('a', async_=True), child, loop)
+                r2 = _drive(rw.run_command('b', async_=True), child, loop)
+                ok = (r1 == o1) and (r2 == o2) and child.lines == ['a', 'b']
+                tag = 2
+            elif shape == 1:
+                r1 = _drive(rw.run_command('a\nb', async_=True), child, loop)
+                r2 = _drive(rw.run_command('c', async_=True), child, loop)
+                ok = (r1 == o1 + o2) and (r2 == o3) and child.lines == ['a', 'b', 'c']
+                tag = 3
+            else:
+                try:
+                    _drive(rw.run_command('if x:', async_=True), child, loop)
+                    return 0
+                except ValueError:
+                    pass
+                if len(child.kills) != 1:
+                    return 0
+                r2 = _drive(rw.run_command('c', async_=True), child, loop)
+                ok = (r2 == o3) and child.lines == ['if x:', 'c']
+                tag = 4
+        except Skip:
+            return SKIP
+    if not ok:
+        return 0
+    if len(child.script) != 0:
+        return 0
+    return tag
+
+
 def dry_runs():
-    for shape in range(3):
+    for shape in range(4):
+        if shape == 3:
+            yield 'Q1_commands', dict(o1='x', o2='', o3='yz', c1=1, c2=0, c3=2, shape=3)
+            continue
         yield 'Q1_commands', dict(o1='x\r\n', o2='', o3='yz', c1=1, c2=0, c3=2, shape=shape)
+        yield 'Q2_commands_async', dict(o1='x\r\n', o2='', o3='yz', c1=1, c2=0, c3=2, shape=shape)
 
 
 MANIFEST_ENTRY = {
@@ -123,6 +215,5 @@ MANIFEST_ENTRY = {
                   'containing a prompt), symbolic read cuts (also inside the prompt), histories of two commands incl. '
                   'multi-line and incomplete input; return value == that command\'s output, ValueError + SIGINT + one '
                   're-synchronisation for incomplete input, nothing left unconsumed.',
-    'level_note': 'Real bash/python prompt behaviour (A6) is outside the claim; the awaited form is covered structurally by '
-                  'C14 (same expect_exact path).',
+    'level_note': 'Real bash/python prompt behaviour (A6) is outside the claim; the awaited form is driven over a hand-played event loop (Q2).',
 }
